@@ -1,6 +1,7 @@
 package main
 
 import (
+	"strings"
 	"fmt"
 	"go/token"
 
@@ -285,6 +286,36 @@ func ruleWaitProtocol(r *Report) {
 				r.Check(!hit, rule, "flushTick/create-and-load-one-section", instrPos(st), "create-if-nil and the load happen in one rateLk section", "rateLk is released between creating the channel and loading it: a flush in between closes and clears it, the writer then waits on nil forever")
 			}
 		}
+		// order: measure before register — the channel the writer waits on is obtained only once the
+		// work that makes it wait has been measured; a channel taken earlier can already have been
+		// closed by a flush that completed before the wait began (a stale release: the writer is let
+		// go although no flush has covered the data that made it wait)
+		var measures []ssa.Instruction
+		deepEach(fn, func(f *ssa.Function, in ssa.Instruction) {
+			if c, ok := in.(ssa.CallInstruction); ok && strings.HasSuffix(cname(c), ".OutstandingWork") {
+				measures = append(measures, in)
+			}
+		})
+		for _, ld := range wt.loads {
+			if ld.Parent() != fn || len(measures) == 0 {
+				continue
+			}
+			allBefore := true
+			var path []*ssa.BasicBlock
+			for _, m := range measures {
+				if m.Parent() != fn {
+					continue
+				}
+				if ok, p := precededBy(fn, ld, map[ssa.Instruction]bool{m: true}, nil); !ok {
+					allBefore, path = false, p
+				}
+			}
+			if allBefore {
+				r.Ok(rule, "flushTick/measure-before-register", instrPos(ld), "the writer registers for the notice only after measuring the outstanding work")
+			} else {
+				r.BadPath(rule, "flushTick/measure-before-register", instrPos(ld), "the writer takes the notification channel before it has measured the outstanding work: a flush that completes in between closes that channel, and the writer that then decides to wait is released at once by a flush that completed before its wait began — the back-pressure it was subjected to is void", path)
+			}
+		}
 		// order: register (load) before signal before wait
 		for _, sg := range signals {
 			if len(wt.loads) > 0 {
@@ -303,7 +334,7 @@ func ruleWaitProtocol(r *Report) {
 			r.BadPath(rule, "flushTick/signal-before-wait", instrPos(w), "the writer can start waiting without having signalled a flush", path)
 		}
 	}
-	r.Min(rule, 5)
+	r.Min(rule, 6)
 }
 
 func ruleFlusher(r *Report) {
